@@ -222,10 +222,14 @@ type Gen struct {
 	KeysPerTab int
 	forceReps  int // >0: every ( ... )+ group is repeated exactly that often
 	AvoidKinds map[string]bool
+	// BigBudget bounds how many arguments above 16 KiB this generator still
+	// produces (they dominate the WAL / engine / log volume); afterwards the
+	// "big" kinds use 10241 bytes, just above the key and sub-key limits.
+	BigBudget int
 }
 
 func NewGen(r *rand.Rand, namespaces []string) *Gen {
-	return &Gen{R: r, Namespaces: namespaces, Tables: []string{"t0", "t1"}, KeysPerTab: 4}
+	return &Gen{R: r, Namespaces: namespaces, Tables: []string{"t0", "t1"}, KeysPerTab: 4, BigBudget: 60}
 }
 
 func (g *Gen) pick(xs ...string) string { return xs[g.R.Intn(len(xs))] }
@@ -471,6 +475,13 @@ func (g *Gen) Mutate(c GenCmd, kinds []slot, kind string) GenCmd {
 		}
 	}
 	fill := func(n int, b byte) []byte {
+		if n > 16<<10 {
+			if g.BigBudget <= 0 {
+				n = 10241
+			} else {
+				g.BigBudget--
+			}
+		}
 		out := make([]byte, n)
 		for i := range out {
 			out[i] = b
@@ -643,7 +654,8 @@ func (g *Gen) Mutate(c GenCmd, kinds []slot, kind string) GenCmd {
 			args = append(args, []byte(g.pick("x", "1", "", "f0", "count", "-1")))
 		}
 	case "manyargs":
-		if len(args) > 1 {
+		if len(args) > 1 && g.BigBudget > 0 {
+			g.BigBudget--
 			last := args[len(args)-1]
 			for k := 0; k < 5003; k++ {
 				args = append(args, last)
